@@ -157,7 +157,7 @@ def renderText (c : OutCfg) (o : RenderOpts) (s : RSt) (pc : Chunk) (prevCol pre
       else s
     let allowTabs := (pc.isPP ∧ ppIwtEff c = 2) ∨ (!pc.isPP ∧ c.iwt = 2)
     let s := rToCol c s pc.col allowTabs
-    let s := rText c s pc.txt (pc.ty = "STRING")
+    let s := rText c s pc.txt (pc.ty = "STRING" ∨ pc.ty = "STRING_MULTI")
     let s := if pc.ty = "PP_DEFINE" ∧ o.forceTabAfterDefine then rAdd c s 9 false else s
     ({ s with o := { s.o with didNl := pc.isNewline, trail := false } }, pc.col)
   else
@@ -166,7 +166,7 @@ def renderText (c : OutCfg) (o : RenderOpts) (s : RSt) (pc : Chunk) (prevCol pre
     let allowTabs := (o.alignWithTabs ∧ pc.wasAligned ∧ prevCol + prevLen + 1 ≠ col)
                      ∨ (o.alignKeepTabs ∧ pc.afterTab)
     let s := rToCol c s col allowTabs
-    let s := rText c s pc.txt (pc.ty = "STRING")
+    let s := rText c s pc.txt (pc.ty = "STRING" ∨ pc.ty = "STRING_MULTI")
     let s := if pc.ty = "PP_DEFINE" ∧ o.forceTabAfterDefine then rAdd c s 9 false else s
     ({ s with o := { s.o with didNl := pc.isNewline, trail := false } }, col)
 
